@@ -404,6 +404,9 @@ def main():
         os.makedirs(os.path.join(VERIF, "evidence"), exist_ok=True)
         with open(os.path.join(VERIF, "evidence", f"{pid}.json"), "w") as f:
             json.dump(ev, f, indent=1)
+        if tier == "thorough":      # keep the last thorough run next to the (usually quick) evidence file
+            with open(os.path.join(VERIF, "evidence", f"{pid}.thorough.json"), "w") as f:
+                json.dump(ev, f, indent=1)
     print(f"{pid} {tier}: cells={obligations} confirmed={discharged} inconclusive={inconclusive} "
           f"violations={len(violations)} harness_errors={len(harness_errors)} paths={tot['paths']} "
           f"z3_checks={tot['z3_checks']} z3_s={tot['z3_s']:.1f} wall={wall:.0f}s")
